@@ -29,6 +29,7 @@ sys.path.insert(0, os.path.dirname(os.path.abspath(__file__)))
 import common
 from common import fstr
 from translate import tx_layout
+import c20_placer
 
 warnings.filterwarnings('ignore')
 
@@ -293,6 +294,11 @@ def gen_grid(rng, allow_outside=False, fixed_p=0.15, offset_p=0.0):
         args = ''
         if cpt in ('R', 'C', 'L', 'V', 'I') and rng.random() < 0.5:
             args = ' %d' % rng.randint(1, 9)
+        if rng.random() < offset_p * 0.6 and cpt in ('R', 'C', 'L', 'V', 'I', 'D') and not fixed:
+            # the offset component is the ONLY component on this edge: nothing but the hint itself aligns its nodes
+            lines.append('%s %s %s%s; %s, offset=%s' % (nm, name[a], name[b], args, h, rng.choice(['0.5', '-0.5', '0.75', '1', '-1'])))
+            feats['offset'] = True
+            continue
         lines.append('%s %s %s%s; %s' % (nm, name[a], name[b], args, h))
         if rng.random() < offset_p and cpt in ('R', 'C', 'L') and not fixed:
             counters['C'] = counters.get('C', 0) + 1
@@ -467,6 +473,7 @@ CORPUS = [
     # offset hint on a component drawn to the left: the generated wires carry rotate=270
     ('left-offset', 2, ['W 9 2; left=3', 'W 9 10; down', 'W 10 3; left=1', 'W 2 3; down', 'R1 9 2; left', 'C1 9 2; left, offset=0.5']),
     ('parallel-offset', 2, ['R1 1 2; right', 'C1 1 2; right, offset=0.5', 'L1 1 2; right, offset=-0.5', 'W 2 3; down', 'W 1 4; down']),
+    ('lone-offset', 2, ['V1 1 0; down=2', 'R1 1 2; right, offset=0.5', 'C1 2 3; down', 'W 0 3; right']),
     ('zero-length', 2, ['R1 1 2; right', 'W 2 3; right=0', 'R2 3 4; down', 'W 4 5; left=0', 'W 5 6; left=2']),
     ('fixed-with-slack', 2, ['R1 1 2; right=1, fixed', 'W 2 5; right=0.5', 'W 1 3; down', 'R2 3 4; right=3', 'W 4 5; up']),
     ('fixed-loop', 3, ['R1 1 2; right=2, fixed', 'R2 2 3; down=1.5, fixed', 'W 1 4; down=1.5', 'R3 4 3; right=1']),
@@ -517,9 +524,10 @@ def run(chk, replay=None):
     TABLE_ANGLES = set(info['rot_keys'])
     TABLE_NORMALISE = bool(info['rot_normalise'])
     # ---- 2. proofs
-    broken = chk.lean(['Lcapy/Props/C20.lean'],
-                      helper_files=['Lcapy/Proofs/LayoutBase.lean', 'Lcapy/Model/Layout.lean', 'Lcapy/Model/LayoutTypes.lean',
-                                    'Lcapy/Spec/Layout.lean', 'Lcapy/Driver/C20.lean'],
+    broken = chk.lean(['Lcapy/Props/C20.lean', 'Lcapy/Props/C20Placer.lean'],
+                      helper_files=['Lcapy/Proofs/LayoutBase.lean', 'Lcapy/Proofs/LayoutPlacer.lean', 'Lcapy/Model/Layout.lean',
+                                    'Lcapy/Model/LayoutPlacer.lean', 'Lcapy/Model/LayoutTypes.lean',
+                                    'Lcapy/Spec/Layout.lean', 'Lcapy/Driver/C20.lean', 'Lcapy/Driver/C20Placer.lean'],
                       leanchecker=(chk.tier == 'thorough'))
     drv = chk.get_driver()
     rng = chk.rng
@@ -634,6 +642,11 @@ def run(chk, replay=None):
         for l in lines:
             chk.count('component', re.match(r'[A-Za-z]+', l.split()[0]).group(0))
         covered = correspondence(lines, k, origin)
+        # ---- the graph placer itself: ordered graphs + Graph.solve on the real graphs (model of schemgraph.py)
+        if covered:
+            pb = c20_placer.run_placer(chk, drv, R, lines, k, origin)
+            if pb is not None:
+                disagreements.append(pb)
         # ---- consistency witness, judged by the Lean spec
         spec = drv.ask1(req('lay.spec', k, lines))
         if spec.startswith('error:'):
@@ -663,12 +676,30 @@ def run(chk, replay=None):
                 chk.count('lcapy-layout-error', '%s:%s:%s' % (method, type(e).__name__, str(e)[:80]))
                 chk.case((tuple(lines), k, method, origin), witness is not None)
                 if witness is not None:
-                    counterexamples += 1
                     key2 = dict(key, failure='raises')
-                    chk.counterexample(key2, dict(replay_base, lcapy='%s: %s' % (type(e).__name__, str(e)[:300]),
-                                                  spec='every drawn node is assigned one finite position'),
-                                       'placer %s raises on consistent hints' % method)
+                    # only counterexamples that are NOT recorded known findings can explain a broken obligation / correspondence
+                    if chk.counterexample(key2, dict(replay_base, lcapy='%s: %s' % (type(e).__name__, str(e)[:300]),
+                                                     spec='every drawn node is assigned one finite position'),
+                                          'placer %s raises on consistent hints' % method):
+                        counterexamples += 1
                 continue
+            if method == 'graph' and covered and not extra:
+                # the model of SchemGraphPlacer.solve END TO END (raw netlist -> node positions) against the real positions
+                ms = drv.ask1(req('lay.solve', k, lines))
+                if ms.startswith('error:'):
+                    chk.count('placer', 'end-to-end:model-' + ms[:40])
+                else:
+                    chk.coverage['correspondence']['compared'] += 1
+                    mp = dict(t.split('=') for t in ms[3:].split(' ; ')[0].split())
+                    dd = []
+                    for n, (x, y) in pos.items():
+                        mx, my = (mp.get(n) or '?,?').split(',')
+                        if mx == '?' or not c20_placer.close(Fraction(mx), x) or not c20_placer.close(Fraction(my), y):
+                            dd.append('%s model %s lcapy %s,%s' % (n, mp.get(n), fstr(x), fstr(y)))
+                    chk.count('placer', 'end-to-end:%s' % ('differ' if dd else 'same'))
+                    if dd:
+                        chk.coverage['correspondence']['disagreements'] += 1
+                        disagreements.append({'what': 'placer:end-to-end', 'netlist': lines, 'spacing': fstr(k), 'detail': dd[:6]})
             verdict = drv.ask1(req('lay.check', k, lines) + ' || ' + pos_str(pos))
             chk.case((tuple(lines), k, method, origin), witness is not None)
             chk.count('verdict-' + method, verdict.split(' ')[0] if witness else 'unjudged-' + verdict.split(' ')[0])
@@ -678,7 +709,6 @@ def run(chk, replay=None):
                 if witness is None:
                     unjudged += 1
                     continue
-                counterexamples += 1
                 if method == 'graph' and len(masked_samples) < 3:
                     masked_samples.append({'netlist': lines, 'node_spacing': fstr(k), 'spec': verdict,
                                            'lcapy': {n: '%s,%s' % (fstr(x), fstr(y)) for n, (x, y) in pos.items()}})
@@ -689,17 +719,18 @@ def run(chk, replay=None):
                             # Lcapy's own Graph.check_positions / assign_stretchy1 messages, by kind
                             lcapy_reports_conflict=('Distance conflict' in printed or 'will not fit' in printed),
                             lcapy_reports_stretch_conflict=('Stretch conflict' in printed))
-                chk.counterexample(key2, dict(replay_base, lcapy={n: '%s,%s' % (fstr(x), fstr(y)) for n, (x, y) in pos.items()},
-                                              spec=verdict, lcapy_messages=printed[:400]),
-                                   'positions of placer %s violate a hint' % method)
+                if chk.counterexample(key2, dict(replay_base, lcapy={n: '%s,%s' % (fstr(x), fstr(y)) for n, (x, y) in pos.items()},
+                                                 spec=verdict, lcapy_messages=printed[:400]),
+                                      'positions of placer %s violate a hint' % method):
+                    counterexamples += 1
                 continue
             # ---- TikZ scan
             probs = tikz_scan(tikz, pos, elts)
             chk.count('tikz', 'ok' if not probs else 'problem')
             if probs:
-                counterexamples += 1
-                chk.counterexample(dict(key, failure='tikz'), dict(replay_base, spec=probs[:5], lcapy=tikz[:1500]),
-                                   'generated drawing code does not contain each component once at the computed positions')
+                if chk.counterexample(dict(key, failure='tikz'), dict(replay_base, spec=probs[:5], lcapy=tikz[:1500]),
+                                      'generated drawing code does not contain each component once at the computed positions'):
+                    counterexamples += 1
         if len(chk.coverage['samples']) < 6 and covered:
             chk.sample({'netlist': lines, 'node_spacing': fstr(k), 'origin': origin, 'witness': witness})
 
